@@ -121,6 +121,18 @@ impl SyntaxPattern {
                                     for (var, multi_match) in multi_matches_substitutions {
                                         substitutions.get_mut(&var).unwrap().1.push(multi_match.0);
                                     }
+                                } else {
+                                    // the run of items ends before a datum the repeated pattern rejects
+                                    return Self::match_datum_stream(
+                                        pattern_index + 1,
+                                        datum_index,
+                                        depth,
+                                        patterns,
+                                        datums,
+                                        pattern_literals,
+                                        substitutions,
+                                        None,
+                                    );
                                 }
                                 if Self::match_datum_stream(
                                     pattern_index,
